@@ -62,6 +62,17 @@ def canon(line, loose_ids=False):
     return line
 
 
+def const_query(l, stale=None):
+    """calls with no model content (uuid / version_name / directory / verify, handle copy-assign-move-destroy,
+    crate::db): compared as defined-vs-undefined only"""
+    t = l.split()
+    return (t[0] == "db.q" and len(t) > 1 and t[1] in ("uuid", "version_name", "directory", "verify")) or \
+        t[0] in ("c15.handles", "c15.crate_db")
+
+
+DB_CONST = ["db.q uuid", "db.q version_name", "db.q directory", "db.q verify"]
+
+
 def run_pair(scripts, watchdog=15):
     hres = runner.run_harness(scripts, watchdog=watchdog, stateless=False)
     mres = runner.run_model(scripts)
@@ -105,7 +116,7 @@ def judge(results, part, family, prefix_len, stale_of, opkey, loose_ids=False, d
                     ubs[key] = {"tag": "ub_" + part, "signature": sig,
                                 "header": {"kind": "script", "part": part,
                                            "what": "public call ended in undefined behaviour: %s   call: %s" % (h, l[:160])},
-                                "body": script[:k + 1] + ["impl(last): " + h] +
+                                "body": script[:k + 1] + ["impl(last): " + h, "model(last): " + m] +
                                         (["stderr: " + x for x in rep["stderr"].split("\n")[-12:]] if rep else [])}
                 break
             toks = l.split()
